@@ -38,7 +38,16 @@ def run(facts, tr, rep):
     for (i, j, node) in ret_assigns(tr, a):
         if not cb.in_arm(a, sw_bb, sw, "HalfOpen", i):
             continue
+        lvs = []
         for lf in leaves(node):
+            hb = tr.local_sync_callee(peel(lf))
+            if hb is not None and hb.local_ty(0)["s"] == "bool":
+                with tr.bound(hb, peel(lf)):
+                    for r in tr.helper_returns(hb):
+                        lvs += [tr.expand(x, upvars=True) for x in leaves(r)]
+            else:
+                lvs.append(lf)
+        for lf in lvs:
             c = normalise_cmp(tr, lf)
             if c and c[0] in ("Lt", "Le") and mentions_field(tr, c[2], "permitted_calls_in_half_open"):
                 guard = (c, i, j)
